@@ -887,9 +887,12 @@ class TreeTransform(Generic[TreeFnT]):
     if agg_only:
       transforms = [t for t in transforms if t.agg_fns]
     runners = []
-    for transform in transforms:
+    for i, transform in enumerate(transforms):
+      # Only the transform reading the data source can be sharded, the first one
+      # is kept so that a missing data source is still reported.
+      has_source = transform.data_source_ is not None or i == 0
       runner = TransformRunner.from_transform(
-          transform, agg_only=agg_only, input_state=shard
+          transform, agg_only=agg_only, input_state=shard if has_source else None
       )
       runners.append(runner)
     return ChainedRunner(runners)
